@@ -29,7 +29,7 @@ class C30(S.SchedCheck):
                    "other asyncio tasks cannot reach scheduler state (they act on a disjoint world in the model; none are scheduled in the harness run)",
                    "asyncio.SelectorEventLoop, CPython 3.12"] + S.SchedCheck.assumptions
     rule = ("all profiles of the family (mixed ops faults time plain: extend/remove ops, raise/kbint/failing enter, nesting, limits incl. 0/negative/non-multiples) + timing profiles of C03 "
-            "+ family corpus; every case is run twice on the real code (do, ado); a quarter of the cases additionally fix a cycle j at whose await a second asyncio task cancels the ado task.  non-trivial = as C01 or >= 10 recur events; distinct by request line")
+            "+ family corpus; every case is run twice on the real code (do, ado); ~a quarter of the cases reach the program through a history / other entry point (schedt.run_var variants), another quarter additionally fix a cycle j at whose await a second asyncio task cancels the ado task.  non-trivial = as C01 or >= 10 recur events; distinct by request line")
 
     def extract(self):
         return XS.extract()
@@ -38,29 +38,31 @@ class C30(S.SchedCheck):
     # or ("seq", (start1, limit1), <run case>): the doer objects were run before under another Doist; the SECOND runs (do / ado) are observed
     @staticmethod
     def base(case):
-        return case[2] if case[0] in ("cancel", "seq") else case
+        return case[2] if case[0] in ("cancel", "seq", "var") else case
 
     def generate(self, rng, n, tier):
         for _ in range(n):
-            if rng.random() < 0.3:
+            k0 = rng.random()
+            if k0 < 0.04:
+                c = T.gen_degenerate(rng)
+            elif k0 < 0.3:
                 c = T.gen_timed(rng, rng.choice(["flat", "nested", "hetero", "f46"]))
             else:
                 c = S.gen_case(rng, rng.choice(self.profiles))
             k = rng.random()
             if k < 0.25 and not S.unmodelled(c):
                 yield ("cancel", rng.choice([0, 0, 1, 1, 2, 3, 5, 8]), c)
-            elif k < 0.45 and T.op_free(c) and T.fault_free(c) and not S.unmodelled(c):
-                f = T.gen_first(rng, c)
-                if f[1] is None and S.has_always(list(c[5])):
-                    f = (f[0], 3 * float(c[1]))
-                yield ("seq", f, c)
+            elif k < 0.5 and len(c) == 6 and not S.unmodelled(c) and (c[3] is not None or not S.has_always(list(c[5]))):
+                yield ("var", T.gen_var(rng, c), c)
             else:
                 yield c
 
     def corpus(self):
         cs = list(S.CORPUS) + list(T.TIMING_CORPUS)
         return cs + [("cancel", j, c) for j in (0, 2) for c in cs[:6] + list(T.TIMING_CORPUS)[:5] if not S.unmodelled(c)] \
-            + [("seq", (float(c[2]) + 5.0, 2.5 * float(c[1])), c) for c in T.TIMING_CORPUS]
+            + [("seq", (float(c[2]) + 5.0, 2.5 * float(c[1])), c) for c in T.TIMING_CORPUS] \
+            + [("var", v, c) for c in (T.F46_WITNESS, T.TIMING_CORPUS[3], T.DEGENERATE_CORPUS[0]) for v in
+               (("same", (5.0, 2.5, 2.0)), ("faulted-first", (5.0, 4.0)), ("wound", (50.0,)), ("ints",), ("iter",), ("init",), ("call",), ("manual",), ("opts",))]
 
     def request(self, case):
         if case[0] == "cancel":
@@ -71,8 +73,9 @@ class C30(S.SchedCheck):
         T.settle_heap()
         if case[0] == "cancel":
             return T.CancelObs(S.run_program(case[2], "do"), T.run_cancelled(case[2], case[1]))
-        if case[0] == "seq":
-            return T.PairObs(T.run_second(case[2], case[1], "do"), T.run_second(case[2], case[1], "ado"))
+        if case[0] in ("seq", "var"):
+            v = ("seq", case[1]) if case[0] == "seq" else case[1]
+            return T.PairObs(T.run_var(case[2], v, "do"), T.run_var(case[2], v, "ado"))
         return T.PairObs(S.run_program(case, "do"), S.run_program(case, "ado"))
 
     def shrink(self, case):
@@ -81,17 +84,17 @@ class C30(S.SchedCheck):
                 yield ("cancel", j, case[2])
             for c in super().shrink(case[2]):
                 yield ("cancel", case[1], c)
-        elif case[0] == "seq":
+        elif case[0] in ("seq", "var"):
             yield case[2]
             for c in super().shrink(case[2]):
-                if T.op_free(c) and T.fault_free(c):
-                    yield ("seq", case[1], c)
+                if T.op_free(c) or (case[0] == "var" and case[1][0] not in T.HISTORY_VARIANTS):
+                    yield (case[0], case[1], c)
         else:
             yield from super().shrink(case)
 
     def mutate(self, rng, case):
-        if case[0] == "seq":
-            return [("seq", case[1], c) for c in super().mutate(rng, case[2]) if T.op_free(c) and T.fault_free(c) and not S.unmodelled(c)]
+        if case[0] in ("seq", "var"):
+            return [(case[0], case[1], c) for c in super().mutate(rng, case[2]) if T.op_free(c) and T.fault_free(c) and not S.unmodelled(c)]
         if case[0] == "cancel":
             return [("cancel", case[1], c) for c in super().mutate(rng, case[2]) if not S.unmodelled(c)]
         return super().mutate(rng, case)
@@ -103,8 +106,8 @@ class C30(S.SchedCheck):
         f = super().features(self.base(case), obs)
         if case[0] == "cancel":
             f.append("cancel:" + ("delivered" if obs.b["raised"] == "cancelled" else "run-ended-first"))
-        if case[0] == "seq":
-            f.append("second-run-of-the-same-doer-objects")
+        if case[0] in ("seq", "var"):
+            f.append("variant:" + ("seq" if case[0] == "seq" else case[1][0]))
         return f
 
     def oracle(self, case, obs):
